@@ -366,8 +366,9 @@ Theorem json_loaded_offsets_are_codepoints c d c2 cc :
       exists cf vn sf cs, In (i, cf) (cc_fs cc) /\ cf_type cf = o_type f /\
         slot f "sofa" = VSofa vn /\ find_sofa c2 vn = Some sf /\
         In cs (cc_sofas cc) /\ cs_id cs = s_xid sf /\ cs_text cs = s_text sf /\
+        (forall b e, covered (cs_text cs) b e = covered (s_text sf) b e) /\
         forall x z, x = "begin" \/ x = "end" -> slot f x = VInt z ->
-          off_in_text (s_text sf) z /\ In (x, CInt z) (cf_feats cf) /\ covered (cs_text cs) z z = covered (s_text sf) z z.
+          off_in_text (s_text sf) z /\ In (x, CInt z) (cf_feats cf).
 Proof.
   intros HL HS WF Hpos Hden.
   destruct (save_json_parts L s mode c d c2 HL HS WF Hpos)
@@ -404,15 +405,14 @@ Proof.
   split; [eapply Permutation_in; [apply Permutation_sym; apply sort_by_perm|exact Hy]|].
   split; [reflexivity|]. split; [exact Es|]. split; [exact Evs|].
   split; [eapply Permutation_in; [apply Permutation_sym; apply sort_by_perm|exact Hcs]|].
-  split; [exact (proj1 Hcsid)|]. split; [exact (proj2 Hcsid)|].
-  intros x z Hx Hs. destruct (Hoff x z Hx Hs) as (Hit & fd & Hfd & Exn & En). split; [exact Hit|]. split.
-  - destruct (jmapM_In_fwd _ _ _ _ Efv Hfd) as (nv & Hnv & Env). cbv beta in Env. rewrite En, Hs in Env. cbn [cv_json cv_atom bind] in Env.
+  split; [exact (proj1 Hcsid)|]. split; [exact (proj2 Hcsid)|]. split; [intros b e; rewrite (proj2 Hcsid); reflexivity|].
+  intros x z Hx Hs. destruct (Hoff x z Hx Hs) as (Hit & fd & Hfd & Exn & En). split; [exact Hit|].
+  { destruct (jmapM_In_fwd _ _ _ _ Efv Hfd) as (nv & Hnv & Env). cbv beta in Env. rewrite En, Hs in Env. cbn [cv_json cv_atom bind] in Env.
     inversion Env; subst nv. rewrite Exn in Hnv. cbn [cf_feats].
     clear -Hnv. unfold sort_feats. induction fv as [|y r IH]; [destruct Hnv|]. cbn [fold_right].
     assert (Hins : forall a l, In a (finsert y l) <-> a = y \/ In a l).
     { intros a l. induction l as [|q l IHl]; cbn [finsert In]; [intuition congruence|].
       destruct (String.leb (fst y) (fst q)); cbn [In]; [intuition congruence|]. rewrite IHl. intuition congruence. }
-    apply Hins. destruct Hnv as [->|Hnv]; [left; reflexivity|right; apply IH; exact Hnv].
-  - rewrite (proj2 Hcsid). reflexivity.
+    apply Hins. destruct Hnv as [->|Hnv]; [left; reflexivity|right; apply IH; exact Hnv]. }
 Qed.
 End JsonDocOffsets.
